@@ -15,7 +15,7 @@ metadata only after force_flush returned Ok; force_flush returns Ok only with no
 error; retirement is guarded by successor_is_durable_or_deleted; Drop drains workers before metadata.
 Not decided: which contents a crash image recovers to (needs crash images, not a static fact).
 """
-DECIDED = ['successor_is_durable_or_deleted memoises only after its verdict and answers true only behind a durable / memoised / deleted generation', "(a) fsync between device write and acknowledging return", "(b) journal/data/clear/publish order and Ok-guards",
+DECIDED = ['writer and recovery token folds agree (shared with C10.token)', 'successor_is_durable_or_deleted memoises only after its verdict and answers true only behind a durable / memoised / deleted generation', "(a) fsync between device write and acknowledging return", "(b) journal/data/clear/publish order and Ok-guards",
            "(c) flush()/force_flush acknowledgement shape", "(d) retire only after successor durable",
            "(e) Drop: finish_shutdown before metadata before DiskIO::shutdown",
            'recovery frees an owned extent with the length of the generation whose sector it releases',
@@ -300,12 +300,11 @@ def _iter_sources(body, e):
 
 # ------------------------------------------------------------------ C02.ack
 
-def check_partition(ctx):
+def check_partition(ctx, inst="C02.ack/partition"):
     """flush() is acknowledged when every *worker* has answered; that covers every *shard* only if the workers' shard sets
     partition 0..shards: worker w drains shards w, w + W, w + 2W, ... below sharded_buffers.len(), W is the number of workers that
     were started, every residue 0..W has a worker, and force_flush addresses exactly those W channels. A shard outside every
     worker's set is never written, yet flush() returns Ok."""
-    inst = "C02.ack/partition"
     b = ctx.fn("write_buffer::flush_worker_shards", inst)
     if b is not None:
         sb = ctx.sites(b, R.call("Iterator::step_by"), inst, exact=1)
@@ -353,6 +352,30 @@ def check_partition(ctx):
             ctx.check(ok, inst, "PIN", b.path, "channels are created for 0..actual_workers", b.where(pn.id))
 
 
+def check_all_workers(ctx, inst, body):
+    """every flush round addresses *all* workers: a worker that already drained its shards (count == 0) may still be writing
+    them - or failing to - so skipping "idle" workers acknowledges data that is not durable and loses the error"""
+    from rules import roles
+    pw = roles.locals_with_role(body, "pending_workers")
+    n_defs = 0
+    FILTERS = ("Iterator::filter", "Iterator::filter_map", "Iterator::take", "Iterator::skip", "Iterator::step_by",
+               "Iterator::take_while", "Iterator::skip_while", "Vec::retain", "Iterator::flat_map")
+    for l in pw:
+        for d in body.defs.get(l, []):
+            v = A.tracer(body, transparent=False).node_value(d)
+            n_defs += 1
+            chain = [c.extra for c in v.calls()]
+            rng = [x for x in v.walk() if x.k == "agg" and x.extra and x.extra.split("::")[-1] == "Range" and "ops::" in x.extra]
+            full = bool(rng) and len(rng[0].a) == 2 and (rng[0].a[0].extra or {}).get("val") == 0 and rng[0].a[1].has_field("WriteBuffer", "worker_channels") and rng[0].a[1].has_call("Vec::len")
+            bad = [c for c in chain if any(path_matches(c, f) for f in FILTERS)]
+            ctx.check(full and not bad and any(path_matches(c, "Iterator::collect") for c in chain), inst, "PROVENANCE", body.path,
+                      "a flush round asks every worker (0..worker_channels.len(), unfiltered)", body.where(d), {"expr": v.show(), "filtered_by": bad})
+    ctx.check(n_defs == 2, inst, "anchor", body.path, "pending_workers is (re)built twice: initially and after retirements released space (found %d)" % n_defs, None)
+    for n in body.calls():
+        if R.call_matches(n.ev, "Vec::retain") and "pending_workers" in _names(body, R.recv_expr(body, n)):
+            ctx.fail(inst, "PROVENANCE", body.path, "pending_workers is filtered in place", body.where(n.id))
+
+
 def check_ack(ctx):
     inst = "C02.ack/flush_all"
     body = ctx.fn("FeoxStore::flush_all", inst)
@@ -396,27 +419,7 @@ def check_ack(ctx):
             return bool(_names(body, e) & {"first_error"})
         edges = A.pred_edges(body, is_first_error, "None")
         R.guard(ctx, inst, body, oks, edges, "Ok(()) only when no worker reported an error")
-        # every flush round addresses *all* workers: a worker that already drained its shards (count == 0) may still be
-        # writing them, so skipping "idle" workers would acknowledge data that is not durable yet
-        from rules import roles
-        pw = roles.locals_with_role(body, "pending_workers")
-        n_defs = 0
-        FILTERS = ("Iterator::filter", "Iterator::filter_map", "Iterator::take", "Iterator::skip", "Iterator::step_by",
-                   "Iterator::take_while", "Iterator::skip_while", "Vec::retain", "Iterator::flat_map")
-        for l in pw:
-            for d in body.defs.get(l, []):
-                v = A.tracer(body, transparent=False).node_value(d)
-                n_defs += 1
-                chain = [c.extra for c in v.calls()]
-                rng = [x for x in v.walk() if x.k == "agg" and x.extra and x.extra.split("::")[-1] == "Range" and "ops::" in x.extra]
-                full = bool(rng) and len(rng[0].a) == 2 and (rng[0].a[0].extra or {}).get("val") == 0 and rng[0].a[1].has_field("WriteBuffer", "worker_channels") and rng[0].a[1].has_call("Vec::len")
-                bad = [c for c in chain if any(path_matches(c, f) for f in FILTERS)]
-                ctx.check(full and not bad and any(path_matches(c, "Iterator::collect") for c in chain), inst, "PROVENANCE", body.path,
-                          "a flush round asks every worker (0..worker_channels.len(), unfiltered)", body.where(d), {"expr": v.show(), "filtered_by": bad})
-        ctx.check(n_defs == 2, inst, "anchor", body.path, "pending_workers is (re)built twice: initially and after retirements released space (found %d)" % n_defs, None)
-        for n in body.calls():
-            if R.call_matches(n.ev, "Vec::retain") and "pending_workers" in _names(body, R.recv_expr(body, n)):
-                ctx.fail(inst, "PROVENANCE", body.path, "pending_workers is filtered in place", body.where(n.id))
+        check_all_workers(ctx, inst, body)
         fpd = ctx.sites(body, R.call("write_buffer::flush_pending_deletions"), inst, exact=1)
         R.dom(ctx, inst, body, fpd, oks, "retirements flushed before Ok(())", a_desc="flush_pending_deletions")
         for f in fpd:
@@ -864,9 +867,9 @@ def check_worker(ctx):
         # the bool returned is `!retries.is_empty()` (something is left to do), computed after process_deletions
         pd = ctx.sites(b, R.call("write_buffer::process_deletions"), inst, exact=1)
         ie = [n for n in b.calls() if R.call_matches(n.ev, "Vec::is_empty") and "retries" in _names(b, R.recv_expr(b, n))]
-        ctx.check(len(ie) == 1, inst, "anchor", b.path, "retries.is_empty() is consulted once", None)
+        ctx.check(len(ie) >= 1, inst, "anchor", b.path, "retries.is_empty() is consulted", None)
         if ie and pd:
-            R.dom(ctx, inst, b, pd, [ie[0].id], "pending work is measured after the deletions were processed", a_desc="process_deletions")
+            R.dom(ctx, inst, b, pd, [x.id for x in ie], "pending work is measured after the deletions were processed", a_desc="process_deletions")
         mp = ctx.sites(b, R.call("Result::map"), inst, exact=1)
         cl = [c for c in ctx.prog.closures_of(b)]
         ok = False
@@ -900,7 +903,15 @@ def check_recovery_release_len(ctx):
     _c.check_recovery_release_len(ctx, "C02.recovery-release-len")
 
 
+def check_token_agreement(ctx):
+    """an acknowledged v3 record is recoverable only if recovery recomputes the token the writer stamped (same rule as C10.token):
+    a record whose fold the two sides map differently is acknowledged by flush() and rejected by every later open"""
+    from rules import C10
+    C10.check_token(ctx, "C02.token-agreement")
+
+
 def check(ctx):
+    check_token_agreement(ctx)
     check_partition(ctx)
     check_recovery_release_len(ctx)
     check_worker(ctx)
